@@ -107,7 +107,7 @@ theorem chain_loop {F : ValFam} (y : Char) (loop : List Tok → Option (List (Na
     {p : Nat} {s : List Char} {p' : Nat} {s' : List Char} {ps : List Pair}
     (h : Chain (GoodFC F) p s p' s' ps) : ∀ s₀, At s₀ p s →
     ∃ fs, loop (toks s) = (closeTok y (toks s')).map (fun r => (fs, r)) ∧ At s₀ p' s' ∧ p ≤ p' ∧
-      (finFs fs = true → BuildsFL s₀ p ps fs) := by
+      BuildsFL s₀ p ps fs := by
   induction h with
   | @stop p s hg =>
     intro s₀ hat
@@ -116,7 +116,7 @@ theorem chain_loop {F : ValFam} (y : Char) (loop : List Tok → Option (List (Na
       cases hp : pField F.const (toks (skipI s)) with
       | none => rfl
       | some x => obtain ⟨⟨n, v⟩, ts'⟩ := x; obtain ⟨s'', pr, e, -⟩ := hg'.ok hp; cases e
-    refine ⟨[], ?_, hat, Nat.le_refl _, fun _ bf _ => rfl⟩
+    refine ⟨[], ?_, hat, Nat.le_refl _, fun bf _ => by rw [expFs_nil]; rfl⟩
     rw [← toks_skipI s]
     by_cases hc : ∃ r, toks (skipI s) = .punct y :: r
     · obtain ⟨r, hr⟩ := hc
@@ -143,11 +143,11 @@ theorem chain_loop {F : ValFam} (y : Char) (loop : List Tok → Option (List (Na
         simp only [Option.bind_some]
         rw [← hts, hi]
         cases closeTok y (toks s3) <;> rfl
-      · intro hnf bf hbf
-        simp only [finFs, Bool.and_eq_true] at hnf
-        have h1 := hb hnf.1 bf (by rw [hst]; omega)
-        have h2 := hbl hnf.2 bf (by omega)
-        simp [List.mapM_cons, h1, h2, normFs, bind, Except.bind, pure, Except.pure]
+      · intro bf hbf
+        have h1 := hb bf (by rw [hst]; omega)
+        have h2 := hbl bf (by omega)
+        rw [List.singleton_append, List.mapM_cons, h1, h2, expFs_cons]
+        rfl
 
 -- ------------------------------------------------------------------ the arguments rule
 
@@ -181,7 +181,7 @@ def GoodArgs (F : ValFam) (s₀ : List Char) (q : Nat) (t : List Char) (r : Res)
   match pArgsV F.const (toks t) with
   | some (as, ts') =>
     ∃ s' pr, r = .ok (q + (t.length - s'.length)) s' [pr] ∧ toks s' = ts' ∧ s'.length < t.length ∧
-      (∃ mid, t = mid ++ s') ∧ pr.start = q ∧ (finFs as = true → buildArgs (envOf s₀) pr = .ok (normFs as))
+      (∃ mid, t = mid ++ s') ∧ pr.start = q ∧ buildArgs (envOf s₀) pr = expFs as
   | none => r = .fail
 
 theorem buildArgs_eq (env : Env) (n : String) (a b : Nat) (ps : List Pair) :
@@ -243,7 +243,7 @@ theorem args_main (F : ValFam) (hF : IsFam F) (q : Nat) (t : List Char) (ht : To
       -- the specification's side, for any document
       have hspec : ∀ s₀, At s₀ q t → ∃ n v fs pr, ps2 = [pr] ∧
           pArgsV F.const (toks t) = (closeTok ')' (toks s')).map (fun r => ((n, v) :: fs, r)) ∧
-          (finFs ((n, v) :: fs) = true → BuildsFL s₀ (skipPos (q + 1) rest) (ps2 ++ ps) ((n, v) :: fs)) := by
+          BuildsFL s₀ (skipPos (q + 1) rest) (ps2 ++ ps) ((n, v) :: fs) := by
         intro s₀ hat
         have hat2 : At s₀ (skipPos (q + 1) rest) (skipI rest) := (hat.consumes hopen.consumes).skip
         have hg' := hg s₀ hat2
@@ -262,11 +262,12 @@ theorem args_main (F : ValFam) (hF : IsFam F) (q : Nat) (t : List Char) (ht : To
             simp only [Option.bind_some]
             rw [← hts, hi]
             cases closeTok ')' (toks s') <;> rfl
-          · intro hnf bf hbf
-            simp only [finFs, Bool.and_eq_true] at hnf
-            have h1 := hb hnf.1 bf (by rw [hst]; exact hbf)
-            have h2 := hbl hnf.2 bf (by omega)
-            simp [List.mapM_cons, h1, h2, normFs, bind, Except.bind, pure, Except.pure]
+          · intro bf hbf
+            have h1 := hb bf (by rw [hst]; exact hbf)
+            have h2 := hbl bf (by omega)
+            show ([pr] ++ ps).mapM (fieldBuild (envOf s₀) bf) = _
+            rw [List.singleton_append, List.mapM_cons, h1, h2, expFs_cons]
+            rfl
       cases hc5 : punctTok ')' (skipI s') with
       | none =>
         rw [hc5] at hev hcl
@@ -295,10 +296,9 @@ theorem args_main (F : ValFam) (hF : IsFam F) (q : Nat) (t : List Char) (ht : To
         refine ⟨r5, Pair.mk (asName F) q (skipPos p' s' + 1) (ps2 ++ ps), ?_, rfl, hl5, ⟨mid5, hmid5⟩, rfl, ?_⟩
         · have : q + (t.length - r5.length) = skipPos p' s' + 1 := by omega
           rw [this]
-        · intro hnf
-          have hat2 : At s₀ (skipPos (q + 1) rest) (skipI rest) := (hat.consumes hopen.consumes).skip
+        · have hat2 : At s₀ (skipPos (q + 1) rest) (skipI rest) := (hat.consumes hopen.consumes).skip
           rw [buildArgs_eq]
-          exact hbl hnf _ (by
+          exact hbl _ (by
             have := hat2.len
             simp [fuelOf, envOf]; omega)
 end AGV.Lemmas.PegX
